@@ -17,7 +17,7 @@ for d, rnd in dirs:
         continue
     dst = os.path.join(out_root, f"{pid}-{k}")
     os.makedirs(dst, exist_ok=True)
-    for f in ["patch.diff", "demo.patch", "demo_cmd.txt", "eval.txt", "patch_original_7b49a57.diff"]:
+    for f in ["patch.diff", "demo.patch", "demo_cmd.txt", "eval.txt"] + [os.path.basename(x) for x in glob.glob(os.path.join(d, "patch_original_*.diff"))]:
         if os.path.exists(os.path.join(d, f)):
             shutil.copy(os.path.join(d, f), os.path.join(dst, f))
     try:
